@@ -234,6 +234,10 @@ func init() {
 			}
 			return smt.ZExt(t, 64), true
 		},
+		"vpBlockForever": func(e *Engine, fr *Frame, args []Value) (Value, bool) {
+			e.blocked("goroutine parks forever (read on an open connection that never delivers)")
+			return nil, true
+		},
 		"vpParam": func(e *Engine, fr *Frame, args []Value) (Value, bool) {
 			name := e.strArg(args[0], "vpParam")
 			v, ok := e.Cfg.Params[name]
